@@ -15,20 +15,35 @@ pub proof fn lemma_seam_boundaries(b: Seq<u8>, pos: int, lo: int, hi: int)
     if pos < hi { assert(is_ws(b[hi - 1])); lemma_ascii_is_boundary(b, hi - 1); lemma_ascii_next_boundary(b, hi - 1); }
 }
 
-//@fn id=format_block file=code/formatter.rs name=format_block props=C01,C02,C14
+/// hull of the exact results of the first n formatters (what format_block folds)
+pub open spec fn hull_spec(fs: Seq<Box<dyn Formatter>>, b: Seq<u8>, p: int, n: int) -> (int, int)
+    decreases n,
+{
+    if n <= 0 { (p, p) } else {
+        let h = hull_spec(fs, b, p, n - 1);
+        let r = fs[n - 1].spec_format(b, p);
+        (if r.0 <= h.0 { r.0 } else { h.0 }, if r.1 >= h.1 { r.1 } else { h.1 })
+    }
+}
+
+//@fn id=format_block file=code/formatter.rs name=format_block props=C01,C02,C13,C14
 //@ret r
 //@requires
     pos <= content.spec_bytes().len(),
     cb(content.spec_bytes(), pos as int),
 //@ensures label=format_block_hull props=C01,C02,C14
     seam_ok(content.spec_bytes(), pos as int, r),
+//@ensures label=format_block_exact props=C13
+    (r.start as int, r.end as int) == hull_spec(formatters@, content.spec_bytes(), pos as int, formatters@.len() as int),
 //@fold 1 type="Range<usize>"
-//@loop 1
+//@loop 1 iter=it
 //@invariant
     pos <= content.spec_bytes().len(),
     cb(content.spec_bytes(), pos as int),
     __acc1.start <= pos <= __acc1.end <= content.spec_bytes().len(),
     all_ws(content.spec_bytes(), __acc1.start as int, __acc1.end as int),
+    it.seq() == formatters@.as_ref(),
+    (__acc1.start as int, __acc1.end as int) == hull_spec(formatters@, content.spec_bytes(), pos as int, it.index@),
 //@at after-loop 1
     proof {
         lemma_bytes_valid(content);
